@@ -42,6 +42,7 @@ type op struct {
 	sizes []int // send: payload size of each message of the batch
 	from  uint64
 	tags  []string
+	poll  bool // read like a poller: from = number of entries this task has consumed so far
 }
 
 type task struct {
@@ -60,6 +61,7 @@ type task struct {
 	msgRet  []int64
 	child   *childProc // non-nil: this writer is a separate OS process
 	opIdx   int
+	seen    uint64 // poll-style reads: entries consumed so far through this handle
 }
 
 // childProc is a writer running in another OS process (the same test binary in
@@ -348,14 +350,26 @@ func (w *world) runTask(t *task) {
 				w.record(t.id, logInput{Send: o.tags}, out, call)
 			}
 		case opRead:
-			ms, err := t.h.GetMessages(o.from)
+			from := o.from
+			if o.poll {
+				// the way a node's poller reads: one handle for its whole life, each
+				// read starts where the previous one ended
+				from = t.seen
+			}
+			ms, err := t.h.GetMessages(from)
 			out := logOutput{Err: err != nil}
 			for _, m := range ms {
 				out.Tags = append(out.Tags, tagOf(m))
 			}
-			w.record(t.id, logInput{From: o.from}, out, call)
+			w.record(t.id, logInput{From: from}, out, call)
 			if err == nil {
-				w.checkRead(ms, o.from, fmt.Sprintf("reader task %d", t.id))
+				w.checkRead(ms, from, fmt.Sprintf("reader task %d", t.id))
+				if o.poll {
+					if len(ms) > 0 {
+						t.seen = ms[len(ms)-1].Offset + 1 // as Poll does: saved offset = offset of the last message + 1
+					}
+					w.stats.Probe("poll-style-read")
+				}
 			}
 		}
 	}
@@ -595,7 +609,7 @@ func (w *world) run(tier string) (bool, interface{}) {
 	for k := 0; k < nops; k++ {
 		t := w.tasks[tp.Choose(nw, "whichTask")]
 		if tp.Choose(4, "readOrSend") == 0 {
-			t.ops = append(t.ops, op{kind: opRead, from: uint64(tp.Choose(6, "from"))})
+			t.ops = append(t.ops, op{kind: opRead, from: uint64(tp.Choose(6, "from")), poll: tp.Choose(2, "pollStyle") == 0})
 			continue
 		}
 		o := op{kind: opSend}
